@@ -1,0 +1,48 @@
+//go:build verif
+
+// Verification hooks for property C13 (password protection / compound file
+// writer). Compiled only with `-tags verif`; adds code and changes none.
+
+package excelize
+
+import "github.com/richardlehane/mscfb"
+
+// verifC13New builds the compound-file writer state exactly as Encrypt does
+// (root entry first) and puts the given streams in order.
+func verifC13New(names []string, contents [][]byte) *cfb {
+	c := &cfb{
+		paths:   []string{"Root Entry/"},
+		sectors: []sector{{name: "Root Entry", typeID: 5}},
+	}
+	for i, n := range names {
+		c.put(n, contents[i])
+	}
+	return c
+}
+
+// VerifC13Locate runs (*cfb).prepare and (*cfb).locate and returns the
+// location vector followed by the root entry's start and size.
+func VerifC13Locate(names []string, contents [][]byte) []int {
+	c := verifC13New(names, contents)
+	c.prepare()
+	loc := c.locate()
+	return append(append([]int{}, loc...), c.sectors[0].start, c.sectors[0].size)
+}
+
+// VerifC13CfbWrite runs (*cfb).write on the given streams.
+func VerifC13CfbWrite(names []string, contents [][]byte) []byte {
+	return verifC13New(names, contents).write()
+}
+
+// VerifC13ExtractPart exposes extractPart on an already opened compound file.
+func VerifC13ExtractPart(doc *mscfb.Reader) ([]byte, []byte) { return extractPart(doc) }
+
+// VerifC13EncryptionMechanism exposes encryptionMechanism.
+func VerifC13EncryptionMechanism(b []byte) (string, error) { return encryptionMechanism(b) }
+
+// VerifC13PackageEncrypt exposes (*encryption).encrypt with a caller-supplied
+// 128-bit key (no key derivation), block size 16 as set by Encrypt.
+func VerifC13PackageEncrypt(key, input []byte) []byte {
+	e := encryption{BlockSize: 16, KeyBits: 128, SaltSize: 16, EncryptedKeyValue: key}
+	return e.encrypt(input)
+}
